@@ -2,13 +2,22 @@ import anytree
 from anytree import NodeMixin, Resolver, ResolverError, RootResolverError, ChildResolverError
 
 
+class NoneName(object):
+    """marker: set the attribute to None (prints as 'None'), as opposed to leaving it unset"""
+
+
+RAW = {"0": 0, "1": 1, "0.0": 0.0, "False": False, "True": True, "None": NoneName}
+
+
 def make_cls(sep, pathattr, kind=None):
     class RN(NodeMixin):
         separator = sep
 
         def __init__(self, label, name, parent=None):
             self.label = label
-            if name is not None:
+            if name is NoneName:
+                setattr(self, pathattr, None)
+            elif name is not None:
                 setattr(self, pathattr, name)
             self.parent = parent
 
@@ -66,6 +75,12 @@ def impl(case):
     pathattr = case.get("pathattr", "name")
     cls = make_cls(sep, pathattr, case.get("cls"))
     names = {k: v for k, v in case["names"]}
+    # the path attribute may hold any object: the resolver compares its str().  Some names are stored as the
+    # non-string object that prints as the name (0, 1, 0.0, False, None)
+    typed = set(case.get("typed", ()))
+    for k in list(names):
+        if k in typed and names[k] in RAW:
+            names[k] = RAW[names[k]]
     index = {}
     build(case["tree"], names, cls, None, index)
     out = []
